@@ -279,7 +279,8 @@ func (obj SparseConstInt16Vector) ITERATOR() *SparseConstInt16VectorIterator {
   return &r
 }
 func (obj SparseConstInt16Vector) ITERATOR_FROM(i int) *SparseConstInt16VectorIterator {
-  k := 0
+  // if there is no entry at or after i the iterator is exhausted
+  k := len(obj.indices)
   for j, idx := range obj.indices {
     if idx >= i {
       k = j
